@@ -99,6 +99,11 @@ func kvmap(m []KV) metadata.Metadata {
 }
 
 func (o Op) sx() string {
+	return L(fmt.Sprint(o.Now), L("op", o.inputSx(), Q(o.IK), b01(o.Dry)))
+}
+
+// inputSx: the caller-supplied input (what the idempotency hash covers)
+func (o Op) inputSx() string {
 	var in string
 	switch o.Kind {
 	case "create":
@@ -121,13 +126,13 @@ func (o Op) sx() string {
 		}
 		in = L("create", L(ps...), ts, Q(o.Ref), kvsx(o.Meta), L(am...), b01(o.Force))
 	case "revert":
-		in = L("revert", fmt.Sprint(o.TxID), b01(o.Force), b01(o.AtEff))
+		in = L("revert", fmt.Sprint(o.TxID), b01(o.Force), b01(o.AtEff), kvsx(o.Meta))
 	case "setmeta":
 		in = L("setmeta", o.tgt(), kvsx(o.Meta))
 	case "delmeta":
 		in = L("delmeta", o.tgt(), Q(o.Key))
 	}
-	return L(fmt.Sprint(o.Now), L("op", in, Q(o.IK), b01(o.Dry)))
+	return in
 }
 func (o Op) tgt() string {
 	if o.IsAcc {
@@ -166,6 +171,7 @@ type HistProfile struct {
 	ScriptsPct    int
 	MetaHeavy     bool
 	AdversarialKV bool
+	IKHeavy       bool // C13: most operations carry a key, a quarter are replays (same or altered input)
 	PostingsHeavy bool // C25: long postings lists over few accounts, amounts close to the balances
 }
 
@@ -204,6 +210,9 @@ func genHistory(r *Rng, p HistProfile, feat Feat, exec func(Op) OpResult) []Op {
 		now += 1000000
 		var o Op
 		k := r.Intn(100)
+		if p.IKHeavy && len(ops) > 0 && r.Chance(25) {
+			k = 99
+		}
 		switch {
 		case k < 50 || ntx == 0:
 			o.Kind = "create"
@@ -259,6 +268,9 @@ func genHistory(r *Rng, p HistProfile, feat Feat, exec func(Op) OpResult) []Op {
 			}
 			o.Force = r.Chance(30)
 			o.AtEff = r.Chance(40)
+			if r.Chance(35) {
+				o.Meta = genMeta(r, p)
+			}
 			ntx++
 		case k < 72:
 			o.Kind = "setmeta"
@@ -309,7 +321,7 @@ func genHistory(r *Rng, p HistProfile, feat Feat, exec func(Op) OpResult) []Op {
 				}
 			}
 		}
-		if o.IK == "" && r.Chance(25) {
+		if o.IK == "" && (r.Chance(25) || p.IKHeavy && r.Chance(50)) {
 			o.IK = Pick(r, []string{"ik1", "ik2", "ik3", "key \"q\""})
 		}
 		if o.Kind != "" && k < 95 {
@@ -380,6 +392,14 @@ func (r OpResult) sx() string {
 	return L("ok", fmt.Sprint(r.LogID), tx, b01(r.Hit))
 }
 
+// revertMeta: nil when the request carries no metadata (as the API does), a fresh map otherwise
+func revertMeta(o Op) metadata.Metadata {
+	if len(o.Meta) == 0 {
+		return nil
+	}
+	return kvmap(o.Meta)
+}
+
 func tsOf(us int64) time.Time { return time.UnixMicro(us).UTC() }
 
 func params[T any](o Op, in T) ledgercontroller.Parameters[T] {
@@ -420,7 +440,7 @@ func runOp(ctx context.Context, ctrl ledgercontroller.Controller, o Op) (res OpR
 		}
 	case "revert":
 		var rt *ledger.RevertedTransaction
-		log, rt, hit, err = ctrl.RevertTransaction(ctx, params(o, ledgercontroller.RevertTransaction{Force: o.Force, AtEffectiveDate: o.AtEff, TransactionID: uint64(o.TxID)}))
+		log, rt, hit, err = ctrl.RevertTransaction(ctx, params(o, ledgercontroller.RevertTransaction{Force: o.Force, AtEffectiveDate: o.AtEff, TransactionID: uint64(o.TxID), Metadata: revertMeta(o)}))
 		if err == nil {
 			res.Tx = &rt.RevertTransaction
 		}
